@@ -33,7 +33,7 @@ theorem C11_open_ts (ro : Bool) (img : Image) (r : RState) (h : recover ro img =
 
 /-- after a kill at any point of any history the re-opened database hands out timestamps above
     every version it holds -/
-theorem C11_after_crash (R : ViewRel) (c : Cfg) (h : List Sched) (hok : HistOk R (MState.init c).p h) :
+theorem C11_after_crash (R : ViewRel) (c : Cfg) (h : List Sched) (hok : SchedHistOk R (MState.init c).p h) :
     ∃ r, recover false (crashKill ((MState.init c).exec h).fs) = .ok r ∧ ∀ e ∈ r.entries, e.ver < r.nextTxnTs := by
   obtain ⟨r, hr, _⟩ := C08_kill_safe R c h hok
   exact ⟨r, hr, C11_open_ts false _ r hr⟩
